@@ -115,6 +115,14 @@ class World:
         return self.pool[i % len(self.pool)]
 
 
+def _parsed_twin(world, path):
+    from btc_hd_wallet.bip32 import PrvKeyNode, PubKeyNode
+    rn = R.derive(world.rm, path)
+    if world.watch_only:
+        return PubKeyNode.parse(rn.xpub(R.TPUB if world.testnet else R.XPUB), world.testnet)
+    return PrvKeyNode.parse(rn.xprv(R.TPRV if world.testnet else R.XPRV), world.testnet)
+
+
 def too_deep(path):
     return len(path) > 40
 
@@ -155,6 +163,23 @@ def do_request(world, req):
             tmp = PubKeyNode.parse(xp, world.testnet)
             out.append(getattr(W, req[2] + "_address")(tmp))
             del tmp
+        return out, []
+    if kind == "node_keys_parsed":
+        # a node that EQUALS a wallet node (same key, chain code, depth, index) but has no ancestry: parsed from its string
+        node, path = world.node(req[1])
+        return W.node_extended_keys(_parsed_twin(world, path)), []
+    if kind == "foreign_pub":
+        # a public node built by the caller from mutable buffers it keeps; used twice, then looked at again
+        from btc_hd_wallet.bip32 import PubKeyNode
+        node, path = world.node(req[1])
+        rn = R.derive(world.rm, path)
+        keybuf, ccbuf = bytearray(rn.sec()), bytearray(rn.c)
+        fn = PubKeyNode(key=keybuf, chain_code=ccbuf, index=rn.index, depth=rn.depth, testnet=world.testnet, parent_fingerprint=rn.pfp)
+        out = []
+        for i in req[2]:
+            ch = fn.ckd(i % H)
+            out.append([ch.public_key.sec().hex(), bytes(ch.chain_code).hex(), ch.extended_public_key()])
+        out.append([bytes(keybuf).hex(), bytes(ccbuf).hex(), fn.extended_public_key()])
         return out, []
     if kind == "node_keys":
         node, path = world.node(req[1])
@@ -229,6 +254,18 @@ def expected(world, req, pool_paths):
             w, node = world.fresh_node(ppath(req[1]) + [j])
             out.append(getattr(w, req[2] + "_address")(node))
         return out
+    if kind == "node_keys_parsed":
+        w, _ = world.fresh_node([])
+        return w.node_extended_keys(_parsed_twin(world, ppath(req[1])))
+    if kind == "foreign_pub":
+        rn = R.derive(rm, ppath(req[1])).neuter()
+        vpub = R.TPUB if tn else R.XPUB
+        out = []
+        for i in req[2]:
+            rc = R.ckd_pub(rn, i % H)
+            out.append([rc.sec().hex(), rc.c.hex(), rc.xpub(vpub)])
+        out.append([rn.sec().hex(), rn.c.hex(), rn.xpub(vpub)])
+        return out
     if kind == "node_keys":
         w, node = world.fresh_node(ppath(req[1]))
         return w.node_extended_keys(node)
@@ -295,9 +332,9 @@ def adapt(req, watch_only):
 def request_ok(req, pool_paths):
     """Requests must stay inside the statement's domain (depth <= 255, hardened needs nothing special here)."""
     kind = req[0]
-    if kind in ("ckd", "derive_path", "children", "concat", "gen_take", "temp_address"):
+    if kind in ("ckd", "derive_path", "children", "concat", "gen_take", "temp_address", "foreign_pub"):
         base = pool_paths[req[1] % len(pool_paths)]
-        extra = 1 if kind in ("ckd", "children", "gen_take", "temp_address") else len(req[2]) + (len(req[3]) if kind == "concat" else 0)
+        extra = 1 if kind in ("ckd", "children", "gen_take", "temp_address", "foreign_pub") else len(req[2]) + (len(req[3]) if kind == "concat" else 0)
         return len(base) + extra <= 60
     return True
 
@@ -325,6 +362,8 @@ def requests(light=False):
         st.tuples(st.just("address"), p, st.sampled_from(KINDS)),
         st.tuples(st.just("temp_address"), p, st.sampled_from(KINDS), st.lists(st.integers(0, 5), min_size=2, max_size=4)),
         st.tuples(st.just("node_keys"), p),
+        st.tuples(st.just("node_keys_parsed"), p),
+        st.tuples(st.just("foreign_pub"), p, st.lists(st.integers(0, 5), min_size=2, max_size=3)),
         st.tuples(st.just("xkeys"), p),
         st.tuples(st.just("str"), p),
         st.tuples(st.just("concat"), p, short_path(2), short_path(2)),
@@ -407,7 +446,7 @@ def check_history(case, ctx):
                 tpaths = [p for _, p in twin.pool]
                 if treq is None or not request_ok(treq, tpaths):
                     continue
-                if treq[0] in ("ckd", "derive_path", "children", "address", "temp_address", "node_keys", "xkeys", "str", "concat", "gen_take"):
+                if treq[0] in ("ckd", "derive_path", "children", "address", "temp_address", "node_keys", "node_keys_parsed", "foreign_pub", "xkeys", "str", "concat", "gen_take"):
                     treq[1] = treq[1] % len(twin.pool)
                 want = norm(expected(twin, treq, tpaths))
                 st_, res = call(do_request, twin, treq)
@@ -429,7 +468,7 @@ def check_history(case, ctx):
                 req, earlier = adapt(op, wo), None
                 if req is None:
                     continue
-                if req[0] in ("ckd", "derive_path", "children", "address", "temp_address", "node_keys", "xkeys", "str", "concat", "gen_take"):
+                if req[0] in ("ckd", "derive_path", "children", "address", "temp_address", "node_keys", "node_keys_parsed", "foreign_pub", "xkeys", "str", "concat", "gen_take"):
                     req[1] = req[1] % len(world.pool)   # resolve the node now; the pool is append-only
             pool_paths = [p for _, p in world.pool]
             if not request_ok(req, pool_paths):
